@@ -6,6 +6,8 @@ import (
 	"fmt"
 	"math/rand/v2"
 	"net/http"
+	"os"
+	"strconv"
 	"runtime/debug"
 	"sort"
 	"strings"
@@ -25,6 +27,7 @@ import (
 	"github.com/NVIDIA/KAI-scheduler/pkg/scheduler/conf"
 	"github.com/NVIDIA/KAI-scheduler/pkg/scheduler/conf_util"
 	"github.com/NVIDIA/KAI-scheduler/pkg/scheduler/framework"
+	kailog "github.com/NVIDIA/KAI-scheduler/pkg/scheduler/log"
 	"github.com/NVIDIA/KAI-scheduler/pkg/scheduler/plugins"
 
 	"verif/harness/internal/spec"
@@ -170,6 +173,11 @@ type ExtraPlugin struct {
 // Init registers actions and plugins once and wraps the proportion builder.
 func Init() {
 	initOnce.Do(func() {
+		if v := os.Getenv("VERIF_LOG"); v != "" {
+			if n, err := strconv.Atoi(v); err == nil {
+				_ = kailog.InitLoggers(n)
+			}
+		}
 		actions.InitDefaultActions()
 		plugins.InitDefaultPlugins()
 		if pb, ok := framework.GetPluginBuilder("proportion"); ok {
